@@ -281,3 +281,20 @@ package das
 //@   loop 4: invariant forall h uint64 :: has(s.failed, h) ==> has(failed, h)
 //@   loop 4: invariant forall h uint64 :: has(s.failed, h) ==> lowestFailedOrInProgress <= h
 //@   loop 4: invariant forall h uint64 :: seen(4, h) ==> has(failed, h)
+
+// ---------------------------------------------------------------------------------------------
+// C04 / C13: reconciling the stored checkpoint with the header store at start-up. Heights below the
+// store's tail can no longer be sampled; everything else the checkpoint covered stays covered: the cursor
+// only moves up to the tail, a failed height at or above the tail stays failed, and every unfinished
+// worker whose range reaches the tail is kept with its upper end and job type, its lower end raised to
+// the tail at most (also a worker of a single height, also one that straddles the tail).
+//@ pure func clampFrom(from uint64, tail uint64) uint64 = (from < tail ? tail : from)
+//@ func (*DASer).checkpoint
+//@   property C04 C13
+//@   noframe
+//@   requires d != nil
+//@   checks err == nil && tail != nil ==> cp.SampleFrom >= tail.Height()
+//@   loop 2: invariant -1 <= rangeindex && rangeindex < len(cp.Workers)
+//@   loop 2: hint len(wrkrs) >= len(head(wrkrs)) && forall k int :: 0 <= k && k < len(head(wrkrs)) ==> wrkrs[k] == head(wrkrs[k])
+//@   loop 2: hint cp.Workers[rangeindex].To >= tail.Height() ==> len(wrkrs) == len(head(wrkrs)) + 1 && wrkrs[len(wrkrs)-1].To == cp.Workers[rangeindex].To && wrkrs[len(wrkrs)-1].JobType == cp.Workers[rangeindex].JobType && wrkrs[len(wrkrs)-1].From == clampFrom(cp.Workers[rangeindex].From, tail.Height())
+//@   loop 2: invariant forall j int :: 0 <= j && j <= rangeindex && cp.Workers[j].To >= tail.Height() ==> (exists k int :: 0 <= k && k < len(wrkrs) && wrkrs[k].To == cp.Workers[j].To && wrkrs[k].JobType == cp.Workers[j].JobType && wrkrs[k].From == clampFrom(cp.Workers[j].From, tail.Height()))
